@@ -274,3 +274,12 @@ Proof.
     vm_compute in E. inversion E; subst u. vm_compute in A. inversion A; subst u'. vm_compute in H1. inversion H1. reflexivity.
 Qed.
 Print Assumptions C03_chain_example.
+
+(** Tie to the source: the constructor these theorems start from is the one yarl/_url.py
+    defines - encode_url is re-translated from the working tree on every run and builds the
+    model's URL value on every input (statement and trusted base: C07_source_encode_url). *)
+From Yarl Require Import Model.Url Model.GenTypes Generated.UrlGen Proofs.GenUrlProofs.
+Theorem C03_source_encode_url : forall (O : oracles) (B : backend) (s : str),
+  same_outcome (gen_encode_url O B s) (encode_url O B s).
+Proof. exact gen_encode_url_ok. Qed.
+Print Assumptions C03_source_encode_url.
